@@ -445,10 +445,6 @@ theorem FInv.prim (P : Frame → Prop) (N : Nat)
     rw [AllF_set] at h ⊢
     exact ⟨fun n hn => h.1 n (h1 n hn), fun n hn => h.2 n (h2 n hn)⟩
 
-/-- SPEC: the layout around the target and at the end of the file, and the layer trivia -/
-def Doc.wrappers (d : Doc) :=
-  (d.noTarget, d.tBefore, d.tAfter, d.stBodyBefore, d.stBodyAfter, d.stAfterLet, d.trailing, d.rstripped)
-
 theorem wrappers_prim {W : Type} (w : W) (proj : Doc → W)
     (h1 : ∀ d id v, proj (d.updBind id v) = proj d)
     (h2 : ∀ d sid f, proj (d.updSet sid f) = proj d)
